@@ -35,7 +35,7 @@ PROBES = ["fault_free_runs", "files_structurally_compared", "adjusted_rules_mask
           "fault:eacces-in", "fault:eio-in", "fault:eio-close-out", "dir_invocation", "file_invocation", "cwd_is_tree", "bystanders_checked",
           "feat:opaque-atrules", "feat:odd-strings", "feat:vendor-hacks", "feat:star-hack", "feat:crlf", "feat:bom", "feat:cdo-cdc",
           "feat:non-ascii", "feat:nesting", "feat:vars", "feat:unicode-seps", "feat:dup-root", "feat:nested-root", "feat:dup-selectors", "feat:comment-in-value", "feat:stale-charset", "feat:css-nesting", "feat:own-colour-elsewhere", "noarg_invocation", "glue_comment_needed", "report_written", "stale_output_overwritten",
-          "cm_named_stylesheet_as_file_argument", "cm_named_stylesheet_as_bystander", "symlinked_stylesheet_input"]
+          "cm_named_stylesheet_as_file_argument", "cm_named_stylesheet_as_bystander", "symlinked_stylesheet_input", "real_interpreter_non_utf8_locale_runs"]
 
 C09_FEATURES = gen.ALL_FEATURES
 _NAMES = ("a.css", "b.css", "main.css", "thème.css", "my style.css", "reset.min.css")
@@ -136,7 +136,10 @@ def generate(rseed, tier, idx):
         else:
             p = "tree/" + fr.choice(inputs)
             plans.append({"kind": kind, "faults": [{"path": p, "mode": "r", "n": 1, "what": "eacces" if kind == "eacces-in" else "eio"}]})
-    return {"prop": ID, "tree": tree, "outside": outside, "env": env, "settings": settings, "inv": inv, "pre_report": pre_report,
+    real = None
+    if idx % 10 == 6 and all(ord(ch) < 128 for rel in tree for ch in rel):
+        real = "C"  # executed by a real interpreter under a non-UTF-8 locale (file names are ASCII; contents need not be)
+    return {"prop": ID, "tree": tree, "outside": outside, "env": env, "settings": settings, "inv": inv, "pre_report": pre_report, "real": real,
             "order_key": o.randrange(1 << 30), "plans": plans, "crash_frac": [fr.random() for _ in range(3)], "enumerate_crashes": True}
 
 
@@ -173,6 +176,8 @@ def _setup(trace, tag):
 def _invoke(root, trace, faults=(), crash_io=None):
     inv, env = trace["inv"], trace["env"]
     target = "tree" if inv["target"] in (".", "") else "tree/" + inv["target"]
+    if trace.get("real") and not faults and crash_io is None:
+        return cli_run.cli_exec_real(root, target, trace["settings"], cwd_rel=env["cwd"], argform=env["argform"], locale_mode=trace["real"])
     return base.in_fork(cli_run.cli_exec, root, target, trace["settings"], cwd_rel=env["cwd"], order_key=trace.get("order_key"),
                         faults=list(faults), crash_io=crash_io, tty=env["tty"], argform=env["argform"], timeout=240)
 
@@ -383,12 +388,14 @@ def execute(trace):
         finally:
             base.rm_tree(r2)
 
-    for pi, plan in enumerate(trace.get("plans", ())):
+    for pi, plan in enumerate(trace.get("plans", ()) if not trace.get("real") else ()):
         r2 = faulted("plan%d:%s" % (pi, plan["kind"]), faults=plan["faults"])
         if r2["fired"]:
             bump("fault:" + plan["kind"])
             nontrivial = True
-    if trace.get("enumerate_crashes"):
+    if trace.get("real"):
+        bump("real_interpreter_non_utf8_locale_runs")
+    if trace.get("enumerate_crashes") and not trace.get("real"):
         for c in range(1, n_open + 1):
             r2 = faulted("crash-before-io-%d" % c, crash_io=c)
             if r2["exit"] == "crash":
@@ -454,6 +461,10 @@ def _drop_empty_comments(nf):
 
 
 def shrink(trace):
+    if trace.get("real"):
+        t = copy.deepcopy(trace)
+        t["real"] = None
+        yield t
     if trace.get("plans"):
         for i in range(len(trace["plans"])):
             t = copy.deepcopy(trace)
